@@ -21,8 +21,9 @@ CONFIG = {
         "appended declarations use names that do not collide with existing ones (zzNew…, ZzNew…): a colliding append is an invalid program, not an evolution step",
         "edits on entity parts (data, statuses, events, commands, summaries) go beyond the property's quantifier and are included as extra coverage",
         "theorem level: all three edit kinds are package-level theorems through Edit.apply and both compilePkg results (C13_append_decl_fresh, "
-        "C13_append_field_pkg, C13_append_option_pkg); field / option appends are proved for top-level containers (path [el i]), the option case for an "
-        "enum no field of the package refers to by name (the enum's export entry carries its value names); deeper paths, request / response / topic "
-        "containers are covered per container (C13_append_field, _ctx, _nested) and by the stream",
+        "C13_append_field_pkg, C13_append_field_method_pkg, C13_append_field_topic_pkg, C13_append_option_pkg): a field appended to the own property "
+        "list of a top-level object / oneof, of a method's request / response, of a topic message (all topic types), an option appended to a top-level "
+        "enum that no field of the package refers to by name (the enum's export entry carries its value names); deeper paths (into inline types, nested "
+        "declarations) are covered per container (C13_append_field, _ctx, _nested) and by the stream",
     ],
 }
